@@ -244,20 +244,22 @@ func (e *engine) craft(pub []byte, ctx string, msg []byte, o craftOpts) []byte {
 }
 
 func (e *engine) runC12() {
-	e.rep.Rule = "EncryptToEd25519/DecryptWithEd25519 (and the PubKey/PrivKey wrappers): messages 0..64 KiB x contexts (incl. empty, NUL, non-UTF-8) x keys, ciphertext equality with the model skeleton over an independent primitive pipeline; wrong key, wrong context, context suffix/prefix; bit flips at every region boundary, truncation at every boundary, extension, prefix re-wrap from public data, grafted prefix/body, sign-alias of the message key; random ciphertexts of every length 0..80 (x6); malformed keys and small-order / non-curve recipient keys; distinct = distinct op line"
+	e.rep.Rule = "EncryptToEd25519/DecryptWithEd25519 (and the PubKey/PrivKey wrappers): messages 0..64 KiB x contexts (incl. empty, NUL, non-UTF-8) x keys, ciphertext equality with the model skeleton over an independent primitive pipeline; wrong key, wrong context, context suffix/prefix; bit flips at every region boundary, truncation at every boundary, extension, prefix re-wrap from public data, grafted prefix/body, sign-alias of the message key; random ciphertexts of every length 0..80 (x6); malformed keys and small-order / non-curve recipient keys; compressible messages of 16 KiB+ (repeated phrase), 64 KiB+ (one byte repeated, ratio > 1000) and incompressible-head / zero-middle / repeated-head mixes with the same tamper classes plus a payload sealed over another message of the same length; every honest ciphertext (large ones included) recomputed with the stdlib pipeline; the documented size bound on the real code: exactly 16 MiB round-trips through both encrypt and both decrypt paths (and is refused under another key / context / a flipped bit / truncation), 16 MiB + 1 is refused by the sender and its stdlib-built ciphertext by the receiver; distinct = distinct op line"
 	e.rep.Require("enc.ok", "enc.err", "dec.ok", "dec.err@guard", "dec.err@blkDec", "dec.err@edToMont-fails", "dec.err@kdf", "dec.err@open-fails", "dec.err@edToMont", "dec.err@s2dec-fails", "reencrypted")
 	// every negative class must have gone through the wrapper the property names AND the direct function
 	for _, c := range []string{"wrong-key", "wrong-context", "context-suffix", "context-prefix", "bit-flip", "truncated", "extended", "shifted", "rewrapped-prefix", "grafted", "foreign-message-key", "sealed-garbage", "low-order-message-key", "random-len", "random-long", "big-bit-flip", "big-truncated", "reencrypted/sign-alias"} {
 		e.rep.Require("dec.via-wrapper:"+c, "dec.via-direct:"+c)
 	}
+	e.rep.Require("enc.msg-compressible-16k", "enc.msg-compressible-run", "enc.msg-compressible-mixed", "dec.via-wrapper:big-sealed-other-message", "dec.via-direct:big-sealed-other-message", "limit.at", "limit.over")
 	e.rep.Require("enc.via-wrapper:small-order-recipient", "enc.via-direct:small-order-recipient", "enc.via-wrapper:random-recipient", "enc.via-direct:random-recipient", "enc.via-wrapper:honest", "enc.via-direct:honest", "dec.nil-key", "enc.nil-key")
 	keys := []*key{e.newKey(), e.newKey(), e.newKey()}
 	sizes := []int{0, 1, 2, 15, 16, 17, 31, 32, 33, 100, 1000, 4096}
-	n := 14 * e.a.Scale
+	n := 17 * e.a.Scale
 	for i := 0; i < n; i++ {
 		k := keys[i%3]
 		ctx := encCtxs[i%len(encCtxs)]
 		var msg []byte
+		msgClass := ""
 		switch {
 		case i < len(sizes):
 			msg = e.rng.Bytes(sizes[i])
@@ -265,6 +267,23 @@ func (e *engine) runC12() {
 			msg = e.rng.Bytes(65536 + e.rng.Intn(3000)) // 64 KiB+: more than one S2 block
 		case i == len(sizes)+1:
 			msg = []byte(strings.Repeat("compressible ", 40+e.rng.Intn(40)))
+		case i == len(sizes)+2:
+			// compressible and >= 16 KiB: the compressed payload is a small fraction of the message
+			// (S2 copy operations, several 4 KiB-64 KiB match windows); length just above 16 KiB
+			msg = []byte(strings.Repeat("compressible ", 1500))[:16384+e.rng.Intn(3000)]
+			msgClass = "compressible-16k"
+		case i == len(sizes)+3:
+			// one byte repeated, more than one 64 KiB S2 block: ratio > 1000
+			msg = make([]byte, 65537+e.rng.Intn(70000))
+			for j := range msg {
+				msg[j] = byte(i)
+			}
+			msgClass = "compressible-run"
+		case i == len(sizes)+4:
+			// incompressible head, compressible tail (and a repeat of the head far behind: a long-distance match)
+			head := e.rng.Bytes(9000 + e.rng.Intn(2000))
+			msg = append(append(clone(head), make([]byte, 20000+e.rng.Intn(20000))...), head...)
+			msgClass = "compressible-mixed"
 		default:
 			msg = e.rng.Bytes(e.rng.Intn(3000))
 		}
@@ -272,6 +291,17 @@ func (e *engine) runC12() {
 		ct := e.encCase(k.pub, ctx, msg, "honest", bptr(true))
 		if ct == nil {
 			continue
+		}
+		if msgClass != "" {
+			e.rep.Branches["enc.msg-"+msgClass]++
+			if len(ct) > len(msg)/3+200 {
+				e.rep.Notes = append(e.rep.Notes, fmt.Sprintf("message class %s: %d-byte message gave a %d-byte ciphertext (not compressible?)", msgClass, len(msg), len(ct)))
+			}
+		}
+		// the documented construction recomputed with the stdlib pipeline — every message, the large and
+		// the compressible ones included (model-independent)
+		if c := e.craft(k.pub, ctx, msg, craftOpts{}); lib.Hex(c) != lib.Hex(ct) {
+			e.rep.Compare(fmt.Sprintf("craft %d len=%d %s", i, len(msg), msgClass), "x", "x", "wrapper", "encrypt.enc:independent-pipeline", fmt.Sprintf("EncryptToEd25519 differs from the documented construction computed with the stdlib pipeline (%d-byte message%s)", len(msg), map[bool]string{true: ", class " + msgClass, false: ""}[msgClass != ""]))
 		}
 		// via the PubKey wrapper: same bytes
 		w, err := peer.EncryptToPubKey(k.pk, ctx, msg)
@@ -309,7 +339,20 @@ func (e *engine) runC12() {
 				e.decCase(k.priv, ctx, m, "big-bit-flip", mustErr, msg, nil)
 			}
 			e.decCase(k.priv, ctx, ct[:len(ct)-1], "big-truncated", mustErr, msg, nil)
-			e.decCase(k.priv, ctx, ct[:len(ct)-4096], "big-truncated", mustErr, msg, nil)
+			cut := 4096
+			if len(ct) < 2*cut { // a compressible message: the ciphertext is short
+				cut = len(ct) / 3
+			}
+			e.decCase(k.priv, ctx, ct[:len(ct)-cut], "big-truncated", mustErr, msg, nil)
+			if msgClass != "" {
+				// a payload that declares the right length but decompresses to another message of that
+				// length (sealed by someone who knows the shared secret): never other plaintext
+				other := clone(msg)
+				other[len(other)/2] ^= 0x55
+				if c := e.craft(k.pub, ctx, msg, craftOpts{payload: s2enc(other)}); c != nil {
+					e.decCase(k.priv, ctx, c, "big-sealed-other-message", mustErr, msg, nil)
+				}
+			}
 			e.decCase(k.priv, ctx, append(clone(ct), 0), "big-extended", mustErr, msg, nil)
 			e.decCase(k.priv, ctx+"x", ct, "big-wrong-context", mustErr, msg, nil)
 			continue
@@ -351,9 +394,6 @@ func (e *engine) runC12() {
 			e.decCase(k.priv, ctx, append(clone(ct2[:4]), ct[4:]...), "grafted", mustErr, msg, nil)
 		}
 		// same plaintext re-encrypted by someone who knows it, with the sign-alias of the message key
-		if c := e.craft(k.pub, ctx, msg, craftOpts{}); lib.Hex(c) != lib.Hex(ct) {
-			e.rep.Compare(fmt.Sprintf("craft %d", i), "x", "x", "wrapper", "encrypt.enc:independent-pipeline", "EncryptToEd25519 differs from the documented construction computed with the stdlib pipeline")
-		}
 		if c := e.craft(k.pub, ctx, msg, craftOpts{flipSign: true}); c != nil {
 			e.decCase(k.priv, ctx, c, "reencrypted/sign-alias", mustErr, msg, nil)
 		}
@@ -477,5 +517,125 @@ func (e *engine) runC12() {
 		e.encCase(b, encCtxs[t%len(encCtxs)], e.rng.Bytes(e.rng.Intn(40)), "random-recipient", bptr(ok))
 		e.encCase(e.rng.Bytes(e.rng.Intn(70)), encCtxs[0], []byte("m"), "recipient-length", nil)
 	}
+	e.runC12Limit(keys[0])
 	e.runC12Norm(keys) // contexts related by a normalisation never decrypt each other's messages (c13b.go, harness/norm)
+}
+
+// specMaxMessage is the documented bound of EncryptToEd25519 / DecryptWithEd25519
+// (peer.MaxEncryptedMessageSize): the largest message that is accepted and returned. Written here, not
+// taken from /repo.
+const specMaxMessage = 16 << 20
+
+// runC12Limit: the round trip AT the documented size bound, on the real code only (a 16 MiB message
+// is not sent through the model driver). Exactly 16 MiB: accepted by EncryptToEd25519 (direct and
+// wrapper), equal to the documented construction, and decrypted to the original by both decrypt
+// paths. One byte more: refused by the sender; a ciphertext of such a message built with the stdlib
+// pipeline is refused by the receiver on both paths (never returned, never other plaintext). Messages
+// are compressible (a repeated phrase), so the ciphertexts are small.
+func (e *engine) runC12Limit(k *key) {
+	ctx := encCtxs[0]
+	phrase := []byte(fmt.Sprintf("at the limit %d ", e.a.Seed))
+	base := make([]byte, specMaxMessage+1)
+	for i := 0; i < len(base); i += len(phrase) {
+		copy(base[i:], phrase)
+	}
+	type res struct {
+		out []byte
+		err error
+		pan string
+	}
+	run := func(f func() ([]byte, error)) (r res) {
+		defer func() {
+			if x := recover(); x != nil {
+				r.pan = fmt.Sprint(x)
+			}
+		}()
+		r.out, r.err = f()
+		return r
+	}
+	same := func(a, b []byte) bool { return len(a) == len(b) && lib.Hex(a[:64]) == lib.Hex(b[:64]) && string(a) == string(b) }
+	for _, c := range []struct {
+		name string
+		msg  []byte
+	}{{"at", base[:specMaxMessage]}, {"over", base}} {
+		over := len(c.msg) > specMaxMessage
+		mon := ""
+		encs := []res{
+			run(func() ([]byte, error) { return peer.EncryptToEd25519(k.pub, ctx, c.msg) }),
+			run(func() ([]byte, error) { return peer.EncryptToPubKey(k.pk, ctx, c.msg) }),
+		}
+		crafted := e.craft(k.pub, ctx, c.msg, craftOpts{})
+		for vi, r := range encs {
+			via := []string{"EncryptToEd25519", "EncryptToPubKey"}[vi]
+			switch {
+			case r.pan != "":
+				mon = fmt.Sprintf("%s panics on a %d-byte message: %s", via, len(c.msg), lib.Trunc(r.pan))
+			case !over && r.err != nil:
+				mon = fmt.Sprintf("%s refuses a message of exactly the documented maximum (%d bytes): %v", via, len(c.msg), r.err)
+			case !over && string(r.out) != string(crafted):
+				mon = fmt.Sprintf("%s differs from the documented construction computed with the stdlib pipeline (%d-byte message)", via, len(c.msg))
+			case over && r.err == nil:
+				// the sender accepted it: then the receiver must return it (C12), else the limit is one-sided
+				back := run(func() ([]byte, error) { return peer.DecryptWithEd25519(k.priv, ctx, clone(r.out)) })
+				if back.err != nil || !same(back.out, c.msg) {
+					mon = fmt.Sprintf("%s encrypts a %d-byte message (documented maximum %d) that DecryptWithEd25519 with the matching key and context does not return: %v", via, len(c.msg), specMaxMessage, back.err)
+				} else {
+					mon = fmt.Sprintf("%s accepts a %d-byte message: the documented maximum is %d", via, len(c.msg), specMaxMessage)
+				}
+			}
+			if mon != "" {
+				break
+			}
+		}
+		if mon == "" {
+			// the receiving side, on the ciphertext built with the stdlib pipeline (for "at": equal to the sender's)
+			for vi, f := range []func() ([]byte, error){
+				func() ([]byte, error) { return peer.DecryptWithEd25519(k.priv, ctx, clone(crafted)) },
+				func() ([]byte, error) { return peer.DecryptWithPrivKey(k.sk, ctx, clone(crafted)) },
+			} {
+				via := []string{"DecryptWithEd25519", "DecryptWithPrivKey"}[vi]
+				r := run(f)
+				switch {
+				case r.pan != "":
+					mon = fmt.Sprintf("%s panics on the ciphertext of a %d-byte message: %s", via, len(c.msg), lib.Trunc(r.pan))
+				case !over && (r.err != nil || !same(r.out, c.msg)):
+					mon = fmt.Sprintf("decryption (%s) with the matching key and context does not return the original message of exactly the documented maximum (%d bytes): %v", via, len(c.msg), r.err)
+				case over && r.err == nil && !same(r.out, c.msg):
+					mon = fmt.Sprintf("decryption (%s) returns other plaintext for the ciphertext of a %d-byte message", via, len(c.msg))
+				case over && r.err == nil:
+					mon = fmt.Sprintf("%s returns a %d-byte message: the documented maximum is %d (the sender refuses such a message; the receiver allocates what the ciphertext declares)", via, len(c.msg), specMaxMessage)
+				}
+				if mon != "" {
+					break
+				}
+			}
+		}
+		if mon == "" && !over {
+			// wrong key / wrong context / a flipped bit on the ciphertext of the maximal message
+			other := keyFromSeed(kdf([]byte("c12 limit"), k.seed, 32))
+			m := clone(crafted)
+			m[len(m)/2] ^= 4
+			for what, f := range map[string]func() ([]byte, error){
+				"another private key":  func() ([]byte, error) { return peer.DecryptWithEd25519(other.priv, ctx, clone(crafted)) },
+				"another context":      func() ([]byte, error) { return peer.DecryptWithEd25519(k.priv, ctx+"x", clone(crafted)) },
+				"a flipped body bit":   func() ([]byte, error) { return peer.DecryptWithEd25519(k.priv, ctx, m) },
+				"the last byte cut off": func() ([]byte, error) { return peer.DecryptWithEd25519(k.priv, ctx, crafted[:len(crafted)-1]) },
+			} {
+				if r := run(f); r.pan != "" || r.err == nil {
+					mon = fmt.Sprintf("decryption of the maximal (%d-byte) message succeeds or panics with %s (%s)", len(c.msg), what, lib.Trunc(r.pan))
+				}
+			}
+		}
+		impl := "ok"
+		if mon != "" {
+			impl = "violates"
+		}
+		// the model's size guards (encryptL / decryptL) on this length; the implementation's side of the
+		// comparison is what the sender did
+		model := e.m.Query(fmt.Sprintf("encrypt.limit n=%d", len(c.msg)))
+		if impl == "ok" {
+			impl = map[bool]string{true: "ok", false: "refused"}[encs[0].err == nil]
+		}
+		e.rep.Compare(fmt.Sprintf("encrypt.limit n=%d ct=%d", len(c.msg), len(crafted)), model, impl, "limit."+c.name, "encrypt.limit:"+c.name, mon)
+	}
 }
